@@ -142,6 +142,10 @@ int main(int argc, char **argv) {
             int bi, li;
             if (buf_args(cur_nr, &bi, &li)) { size_t n = (size_t)regs.rdx; if (n <= (4u << 20)) { unsigned char *b = malloc(n + 1); ssize_t g = peek(pid, regs.rsi, b, n); if (g < 0) g = 0; fprintf(out, ",\"buf_len\":%zu,\"buf_fnv\":\"%016llx\"", n, (unsigned long long)fnv(b, (size_t)g));
                     if (n && b[g - 1] == '\n') fprintf(out, ",\"buf_ends_nl\":1"); free(b); } }
+            if (cur_nr == SYS_writev) { /* total length, hash and last byte over the iovec array */
+                long cnt = (long)regs.rdx; if (cnt > 0 && cnt <= 64) { struct iovec iv[64]; peek(pid, regs.rsi, iv, cnt * sizeof iv[0]); size_t tot = 0; for (long q = 0; q < cnt; q++) tot += iv[q].iov_len;
+                    if (tot <= (4u << 20)) { unsigned char *b = malloc(tot + 1); size_t o = 0; for (long q = 0; q < cnt; q++) { ssize_t g = peek(pid, (unsigned long)iv[q].iov_base, b + o, iv[q].iov_len); if (g > 0) o += g; }
+                        fprintf(out, ",\"buf_len\":%zu,\"buf_fnv\":\"%016llx\",\"iovcnt\":%ld", tot, (unsigned long long)fnv(b, o), cnt); if (o && b[o - 1] == '\n') fprintf(out, ",\"buf_ends_nl\":1"); free(b); } } }
             for (int f = 0; f < nfail; f++) if (idx == failk[f]) { regs.orig_rax = (unsigned long long)-1; ptrace(PTRACE_SETREGS, pid, 0, &regs); pend = 1; pend_ret = -faile[f]; fprintf(out, ",\"injected\":%ld", -faile[f]); }
             if (idx == retzero) { regs.orig_rax = (unsigned long long)-1; ptrace(PTRACE_SETREGS, pid, 0, &regs); pend = 1; pend_ret = 0; fprintf(out, ",\"injected\":0"); }
             if (idx == shortk) { regs.rdx = (unsigned long long)shortn; ptrace(PTRACE_SETREGS, pid, 0, &regs); fprintf(out, ",\"shortened\":%ld", shortn); }
